@@ -31,11 +31,7 @@ from scanpipe import T, P, NS, q
 
 # Genuine defects of the unchanged code found by this check (reported to the integrator, who moves
 # them to known_findings.json or repairs the code).  Keys are per defect site, not per input.
-PENDING_FINDINGS = [
-    ('vfunc-own-block-overlaid',
-     "a virtual method WITH a block of its own (FooBarClass::slot) still receives its invoker's block on top "
-     "(_pair_class_virtuals / (virtual) annotation): the invoker's description, Since, ... replace the vfunc's own"),
-]
+PENDING_FINDINGS = []
 
 GOBJECT_GIR = '''<?xml version="1.0"?>
 <repository version="1.2" xmlns="http://www.gtk.org/introspection/core/1.0" xmlns:c="http://www.gtk.org/introspection/c/1.0" xmlns:glib="http://www.gtk.org/introspection/glib/1.0">
@@ -602,7 +598,13 @@ def vfunc_invokers(spec, elems=None):
             for f in t.get('funcs', []):
                 for b in spec['blocks']:
                     if b['key'] == f['symbol'] and any(a == 'virtual' and o[:1] == [v['name']] for a, o in b.get('anns', [])):
-                        out.setdefault(va, []).append((f['symbol'], 'virtual'))
+                        # only a method can be an invoker: (virtual) on a constructor or static function is
+                        # warned about and ignored (unless the block also says (method))
+                        is_m = f['role'] == 'method'
+                        if elems is not None and ('fn:' + f['symbol']) in elems:
+                            is_m = elems['fn:' + f['symbol']]['tag'] == 'method'
+                        if is_m or ann_opts(b, 'method') is not None:
+                            out.setdefault(va, []).append((f['symbol'], 'virtual'))
     return out
 
 
@@ -733,10 +735,9 @@ def judge_presence(ctx, cnt, spec, real, case_id):
         kind = KIND_OF_TAG.get(el['tag'], el['tag'])
         if b['key'].startswith('SECTION:'):
             kind = 'section'      # a SECTION block only carries the generic metadata
+        # (a virtual method documented by this block does not share it with its invoker's block: only a
+        # virtual method WITHOUT a block of its own inherits from the invoker)
         sharing = [o for o in blocks_for(spec, addr) if o is not b]
-        if addr in inv:
-            for sym, _how in inv[addr]:
-                sharing.extend(o for o in spec['blocks'] if o['key'] == sym)
         is_cbf = el['tag'] == 'field' and '<callback' in el['serial']
         for what, name, value, pend in expected_presence(b, kind, is_cbf):
             # another block documenting the same element may legitimately win for the same item
@@ -995,6 +996,10 @@ def judge_absence(ctx, cnt, spec, real, idx, gobject_gir, case_id):
             if target is not None and target.startswith('prop:') and addr.startswith('fn:') and \
                     (ann_opts(b, 'setter') or ann_opts(b, 'getter')):
                 allowed.append(('accessor-backref', acc))
+            # a method named as getter by one property is no inferred getter candidate of another one
+            if target is not None and target.startswith('prop:') and addr.startswith('prop:') and ann_opts(b, 'getter'):
+                if any(e['rec']['attrs'].get('getter') == ann_opts(b, 'getter')[0] for e in (x, y)):
+                    allowed.append(('accessor-getter-taken', ['getter']))
             # the accessor heuristic: a property finds (or loses) its getter/setter among the methods by name
             if target is not None and target.startswith('fn:') and addr.startswith('prop:'):
                 allowed.append(('accessor-heuristic', ['setter', 'getter']))
@@ -1037,11 +1042,12 @@ def judge_absence(ctx, cnt, spec, real, idx, gobject_gir, case_id):
                     cnt.hit('absence:allowed-vfunc-field-doc')
                     continue
                 if is_inv and own:
-                    only_invoker = strip_attrs(sx, ['invoker']) == strip_attrs(sy, ['invoker'])
-                    if only_invoker and ann_opts(b, 'virtual'):
+                    # with a block of its own the virtual method only learns the invoker's name (which the
+                    # removed block can change: (virtual slot), or a role annotation renaming the function)
+                    if strip_attrs(sx, ['invoker']) == strip_attrs(sy, ['invoker']):
                         cnt.hit('absence:allowed-virtual-invoker-attr')
                         continue
-                    ctx.report_failure('vfunc-own-block-overlaid',
+                    ctx.report_failure('vfunc-own-block-overlaid:%s:%s' % (case_id, json.dumps([b['key'], addr])),
                                        'virtual method %s has a block of its own, yet removing the block of its '
                                        'invoker %r changes it: %s -> %s' % (addr, b['key'], sy[:300], sx[:300]),
                                        {'kind': 'case', 'spec': spec, 'remove': idx})
@@ -1264,6 +1270,9 @@ def gen_spec(rng, size=None):
                 b = add(f['symbol'], ('fn', f['symbol']), 'function',
                         [p['name'] for p in t.get('props', [])] if rng.random() < 0.5 else fnames, params=params)
                 if f['role'] == 'method' and t.get('vslots') and rng.random() < 0.2:
+                    b['anns'].append(['virtual', [rng.choice(t['vslots'])['name']]])
+                elif f['role'] in ('ctor', 'static') and t.get('vslots') and rng.random() < 0.1:
+                    # only a method can be an invoker: warned about and ignored
                     b['anns'].append(['virtual', [rng.choice(t['vslots'])['name']]])
                 if f['role'] == 'ctor' and rng.random() < 0.3:
                     b['anns'].append(['constructor', []])
